@@ -261,6 +261,21 @@ class GRUnit(Operation):
         raise SkipGradient("Gradient computed in GRU.backward()")
 
     def backward(self, grad, **kwargs):
+        # work with the recorded operands: `self.variables` follows in-place updates
+        # of the public tensors (it is re-routed to their pre-update counterparts)
+        (
+            self.X,
+            self.Uz,
+            self.Wz,
+            self.bz,
+            self.Ur,
+            self.Wr,
+            self.br,
+            self.Uh,
+            self.Wh,
+            self.bh,
+        ) = self.variables
+
         hidden_seq = self._hidden_seq()
         if hidden_seq is None:  # pragma: no cover
             assert False, "should be unreachable"
